@@ -207,5 +207,44 @@ func checkC23(c *Ctx, r *Report) {
 			}
 		})
 		r.Check(ok, r5, fn, "trend step", nil, "trend[addr] = clamp(trend[addr]±1, …"+m.lim+")", "the trend update does not derive from the previous trend and the configured "+m.lim)
+		// every observation is counted: each path to a return passes a trend update,
+		// unless it returns where the trend is already saturated at the limit (the
+		// clamped step would change nothing). A failure that is not recorded leaves a
+		// partial pass streak standing, so the host comes back after fewer than
+		// Passes consecutive successes (and symmetrically for passes).
+		var updates []ssa.Instruction
+		instrsOf(fn, func(in ssa.Instruction) {
+			if mu, isMU := in.(*ssa.MapUpdate); isMU && isPureLoadOf(mu.Map, fTrend) && mu.Key == fn.Params[1] {
+				updates = append(updates, in)
+			}
+		})
+		saturated := eqFact(func(b *ssa.BinOp) bool {
+			tr := func(v ssa.Value) bool {
+				return mentions(v, func(w ssa.Value) bool { lk, isL := w.(*ssa.Lookup); return isL && mentionsField(lk.X, fTrend) }, 4)
+			}
+			lm := func(v ssa.Value) bool {
+				if !mentionsField(v, pkgHC+".FilterConfig."+m.lim) {
+					return false
+				}
+				neg := mentions(v, func(w ssa.Value) bool { u, isU := w.(*ssa.UnOp); return isU && u.Op == token.SUB }, 3)
+				return neg == (m.fn == "failed")
+			}
+			return tr(b.X) && lm(b.Y) || tr(b.Y) && lm(b.X)
+		}, true)
+		skipped := ""
+		complete := forEachPath(fn, 2000, func(p Path) {
+			ret := p.ret()
+			if ret == nil || guardedBy(ret, saturated) {
+				return
+			}
+			for _, u := range updates {
+				if p.hasInstr(u) {
+					return
+				}
+			}
+			skipped = c.posStr(ret.Pos())
+		})
+		r.Check(complete && skipped == "", r5, fn, "every observation counted", nil, "each return follows a trend update (or a saturated trend)",
+			"a path through "+m.fn+" returns without updating the trend ("+skipped+"): that observation is not counted, so a "+tern2(m.fn == "failed", "failure does not interrupt a streak of passes — a flapping host is re-admitted after fewer than Passes consecutive successes", "success does not interrupt a streak of failures — a flapping host is marked unhealthy after fewer than Fails consecutive failures"))
 	}
 }
